@@ -49,4 +49,8 @@ def isclose (a b : Rat) : Bool :=
 
 def mean (l : List Rat) : Rat := l.sum / (l.length : Rat)
 
+/-- **Partial division** (translator option `partial_div`, C18/C20): numpy's `a / b` yields `inf`/`NaN` for `b = 0`
+    (no exception); the model reports that as the error `"div0"` instead of Lean's total `x / 0 = 0`. -/
+def divE (a b : Rat) : Except String Rat := if b = 0 then .error "div0" else .ok (a / b)
+
 end Py
